@@ -90,6 +90,7 @@ def opOf (j : Json) : Except String Op := do
   | "collLoad" => pure (.collLoad (← a))
   | "collSelect" => pure (.collSelect (← a))
   | "useAsRef" => pure .useAsRef
+  | "staleArg" => pure .staleArg
   | _ => throw s!"unknown op kind {k}"
 
 def jNat (n : Nat) : Json := .num (JsonNumber.fromNat n)
